@@ -62,33 +62,37 @@ class Collector(ast.NodeVisitor):
             self.func.append(node.name)
         fn = self.func[-1] if self.func else "<module>"
         ln = getattr(node, "lineno", 0)
+        try:
+            src = ast.unparse(node)[:120]
+        except Exception:
+            src = ""
         if isinstance(node, ast.Compare):
             for i, op in enumerate(node.ops):
                 if type(op) in CMP:
-                    self.sites.append(("cmp", node._mid, i, fn, ln))
+                    self.sites.append(("cmp", node._mid, i, fn, ln, src))
         elif isinstance(node, ast.BinOp) and type(node.op) in BIN:
-            self.sites.append(("bin", node._mid, 0, fn, ln))
+            self.sites.append(("bin", node._mid, 0, fn, ln, src))
         elif isinstance(node, ast.BoolOp):
-            self.sites.append(("boolop", node._mid, 0, fn, ln))
+            self.sites.append(("boolop", node._mid, 0, fn, ln, src))
         elif isinstance(node, ast.UnaryOp) and isinstance(node.op, ast.Not):
-            self.sites.append(("not", node._mid, 0, fn, ln))
+            self.sites.append(("not", node._mid, 0, fn, ln, src))
         elif isinstance(node, ast.Constant):
             if isinstance(node.value, bool):
-                self.sites.append(("const-bool", node._mid, 0, fn, ln))
+                self.sites.append(("const-bool", node._mid, 0, fn, ln, src))
             elif isinstance(node.value, int) and abs(node.value) < 2**64:
-                self.sites.append(("const-int", node._mid, 1, fn, ln))
-                self.sites.append(("const-int", node._mid, -1, fn, ln))
+                self.sites.append(("const-int", node._mid, 1, fn, ln, src))
+                self.sites.append(("const-int", node._mid, -1, fn, ln, src))
         elif isinstance(node, ast.If):
-            self.sites.append(("if-true", node._mid, 0, fn, ln))
-            self.sites.append(("if-false", node._mid, 0, fn, ln))
+            self.sites.append(("if-true", node._mid, 0, fn, ln, src))
+            self.sites.append(("if-false", node._mid, 0, fn, ln, src))
         elif isinstance(node, ast.Raise):
-            self.sites.append(("drop-raise", node._mid, 0, fn, ln))
+            self.sites.append(("drop-raise", node._mid, 0, fn, ln, src))
         elif isinstance(node, ast.Expr) and isinstance(node.value, ast.Call):
-            self.sites.append(("drop-call", node._mid, 0, fn, ln))
+            self.sites.append(("drop-call", node._mid, 0, fn, ln, src))
         elif isinstance(node, ast.Break):
-            self.sites.append(("break-continue", node._mid, 0, fn, ln))
+            self.sites.append(("break-continue", node._mid, 0, fn, ln, src))
         elif isinstance(node, (ast.Assign, ast.AugAssign)) and self.func:
-            self.sites.append(("drop-assign", node._mid, 0, fn, ln))
+            self.sites.append(("drop-assign", node._mid, 0, fn, ln, src))
         super().generic_visit(node)
         if isinstance(node, (ast.FunctionDef, ast.AsyncFunctionDef)):
             self.func.pop()
@@ -160,7 +164,7 @@ def run_one(job):
 def _run_one(job):
     idx, path, site, checks, examples = job
     src = mutated_source(path, site)
-    res = {"idx": idx, "file": path, "kind": site[0], "mid": site[1], "variant": site[2], "function": site[3], "line": site[4]}
+    res = {"idx": idx, "file": path, "kind": site[0], "mid": site[1], "variant": site[2], "function": site[3], "line": site[4], "src": site[5] if len(site) > 5 else ""}
     if src is None:
         res["status"] = "not-applied"
         return res
@@ -284,8 +288,8 @@ def _main(args, files):
         for l in open(args.rerun):
             r = json.loads(l)
             if r["status"] == "survived":
-                want.add((r["file"], r["kind"], r["variant"], r["line"]))
-        chosen = [(p, s) for p, s in allsites if (p, s[0], s[2], s[4]) in want]
+                want.add((r["file"], r["kind"], r["variant"], r["function"], r.get("src") or r["line"]))
+        chosen = [(p, s) for p, s in allsites if (p, s[0], s[2], s[3], s[5]) in want or (p, s[0], s[2], s[3], s[4]) in want]
     jobs = [(i, p, s, FILES[p], args.examples) for i, (p, s) in enumerate(chosen)]
     outdir = os.path.join(ROOT, "scratch", "mutation")
     os.makedirs(outdir, exist_ok=True)
